@@ -102,6 +102,11 @@ CHECKS = {
          "Held on every explored (table set, mapping, observation | program): 13 hostile worlds + 24/300 seeded random worlds, ~8k/150k programs.",
          "Repeated links (two link rows giving one edge id) are compared with the interpreter on a multigraph only; lookups of such ids are not generated.",
          "5/C15"),
+ "C17": ("exploration",
+         "race detector + history checker: seeded client sessions (2-32 clients, 8 profiles) against one live GripServer over loopback gRPC in a -race worker; every call is recorded at the client boundary with call/return stamps; race-detector reports are keyed by the racing function pair and every key must be listed; a fatal error ends the worker and is attributed to the running case; ids with one writer must behave sequentially, values read on shared ids must have been written before the read returned, the final values of shared ids must be explained by an order of the acknowledged edits that respects each client's program order (constraint graph, acyclicity), the stored graph must satisfy its index/data invariants at quiescence, stored schemas must be one upload, jobs must end COMPLETE with the rows of their query; manager.GetTempKV and util.StreamBatch are driven directly",
+         "Held on every explored schedule: 3/20 repetitions x 8 profiles x 2-32 clients x GOMAXPROCS 1-16; no race report, no fatal error, every history explained. Interleavings are sampled, not enumerated.",
+         "porcupine was not needed: unique values make the program-order check exact for present keys and the check is polynomial; for keys that end absent the killer search is permissive (never stricter than the property).",
+         "5/C17"),
 }
 
 NOT_YET = "check not built yet in this session (design in DESIGN.md section 5); claimed once the monitor exists and is silent on the unchanged tree"
